@@ -55,6 +55,16 @@ def run(ctx) -> None:
         lc = LruClass(ctx, kind)
         ctx.count("wrapper_classes")
         check_call(ctx, lc)
+    # "every caller receives a value produced for an equal argument pattern" and "a failed or cancelled
+    # call leaves the cache fully usable (statistics included)": the key table and the counter
+    # discipline of C10, shared
+    from . import c10
+    from .common import Relabel
+    ctx.rule("R11.7", "cache_clear / cache_info / cache_parameters discipline: every counter is reset to 0, nothing else survives a clear (R10.3, shared)")
+    for kind in CLASSES:
+        c10.r10_3(Relabel(ctx, "R11.7"), LruClass(ctx, kind))
+    ctx.rule("R11.8", "two calls share an entry only if their argument patterns are equal: key table vs functools._make_key (R10.1, shared)")
+    c10.r10_1(Relabel(ctx, "R11.8"))
     ctx.floor("wrapper_classes", 3)
     ctx.floor("call_paths", 5)
     ctx.floor("cells", 6)
